@@ -107,25 +107,32 @@ func negB(x sbound) sbound {
 	return fin(-x.a, -x.b)
 }
 
-type sival struct{ lo, hi sbound }
+type sival struct {
+	lo, hi sbound
+	unk    bool // involves a construct the analysis does not model
+}
 
-var topIval = sival{negInf, posInf}
+var topIval = sival{lo: negInf, hi: posInf}
+var unkIval = sival{lo: negInf, hi: posInf, unk: true}
 
 func (v sival) String() string { return "[" + v.lo.String() + ", " + v.hi.String() + "]" }
 
-func hull(x, y sival) sival   { return sival{minB(x.lo, y.lo), maxB(x.hi, y.hi)} }
-func meet(x, y sival) sival   { return sival{tightLo(x.lo, y.lo), tightHi(x.hi, y.hi)} }
-func addI(x, y sival) sival   { return sival{addB(x.lo, y.lo), addB(x.hi, y.hi)} }
-func negI(x sival) sival      { return sival{negB(x.hi), negB(x.lo)} }
-func subI(x, y sival) sival   { return addI(x, negI(y)) }
-func constI(k int64) sival    { return sival{fin(0, k), fin(0, k)} }
+func hull(x, y sival) sival { return sival{minB(x.lo, y.lo), maxB(x.hi, y.hi), x.unk || y.unk} }
+func meet(x, y sival) sival { return sival{tightLo(x.lo, y.lo), tightHi(x.hi, y.hi), x.unk || y.unk} }
+func addI(x, y sival) sival { return sival{addB(x.lo, y.lo), addB(x.hi, y.hi), x.unk || y.unk} }
+func negI(x sival) sival    { return sival{negB(x.hi), negB(x.lo), x.unk} }
+func subI(x, y sival) sival { return addI(x, negI(y)) }
+func constI(k int64) sival  { return sival{lo: fin(0, k), hi: fin(0, k)} }
 func nonNeg(x sival) bool     { return leq(fin(0, 0), x.lo) }
 
 type rangeEngine struct {
-	ke   *KindEngine
-	f    *ssa.Function
-	busy map[ssa.Value]bool
-	zoom Kind // which zoom kind defines n
+	w     *World
+	ke    *KindEngine
+	f     *ssa.Function
+	busy  map[ssa.Value]bool
+	zoom  Kind // which zoom kind defines n
+	bind  map[ssa.Value]sival // parameter bindings (interprocedural)
+	depth int
 }
 
 // isN: v == 2^zoom as an integer or float value
@@ -136,6 +143,18 @@ func (re *rangeEngine) isPow(v ssa.Value) bool {
 	}
 	if c, ok := v.(*ssa.Call); ok && calleeIs(c, "math", "Pow") {
 		if k, ok := constFloat(c.Call.Args[0]); ok && k == 2 {
+			a := re.ke.Eval(c.Call.Args[1])
+			return a != nil && a.Scalar == ks(re.zoom)
+		}
+	}
+	if c, ok := v.(*ssa.Call); ok && calleeIs(c, "math", "Ldexp") {
+		if k, ok := constFloat(c.Call.Args[0]); ok && k == 1 {
+			a := re.ke.Eval(c.Call.Args[1])
+			return a != nil && a.Scalar == ks(re.zoom)
+		}
+	}
+	if c, ok := v.(*ssa.Call); ok && calleeIs(c, modPath+"/common", "CalculateArithmeticShift") {
+		if k, ok := constInt(c.Call.Args[0]); ok && k == 1 {
 			a := re.ke.Eval(c.Call.Args[1])
 			return a != nil && a.Scalar == ks(re.zoom)
 		}
@@ -158,7 +177,10 @@ func (re *rangeEngine) def(v ssa.Value, at *ssa.BasicBlock) sival {
 		return constI(int64(k))
 	}
 	if re.isPow(v) {
-		return sival{fin(1, 0), fin(1, 0)}
+		return sival{lo: fin(1, 0), hi: fin(1, 0)}
+	}
+	if b, ok := re.bind[v]; ok {
+		return b
 	}
 	if re.busy[v] {
 		return topIval
@@ -182,17 +204,44 @@ func (re *rangeEngine) def(v ssa.Value, at *ssa.BasicBlock) sival {
 		case token.AND:
 			// x & (n-1)
 			if b.lo == b.hi && b.lo.inf == 0 && b.lo.a == 1 && b.lo.b == -1 {
-				return sival{fin(0, 0), fin(1, -1)}
+				return sival{lo: fin(0, 0), hi: fin(1, -1)}
 			}
 			if a.lo == a.hi && a.lo.inf == 0 && a.lo.a == 1 && a.lo.b == -1 {
-				return sival{fin(0, 0), fin(1, -1)}
+				return sival{lo: fin(0, 0), hi: fin(1, -1)}
 			}
+		case token.MUL, token.QUO, token.SHL, token.SHR:
+			return topIval // scaling of an unbounded quantity stays unbounded
 		}
-		return topIval
+		return unkIval
 	case *ssa.UnOp:
 		if x.Op == token.SUB {
 			return negI(re.at(x.X, x.Block()))
 		}
+		if x.Op == token.MUL {
+			// load of a local variable: hull of the stored values
+			if al, ok := x.X.(*ssa.Alloc); ok {
+				var out *sival
+				for _, ref := range *al.Referrers() {
+					if st, ok := ref.(*ssa.Store); ok && st.Addr == al {
+						iv := re.at(st.Val, st.Block())
+						if out == nil {
+							out = &iv
+						} else {
+							h := hull(*out, iv)
+							out = &h
+						}
+					}
+				}
+				if out != nil {
+					return *out
+				}
+			}
+			return topIval // field / element loads: unconstrained data
+		}
+		return unkIval
+	case *ssa.Parameter:
+		return topIval
+	case *ssa.Extract:
 		return topIval
 	case *ssa.Call:
 		if calleeIs(x, "math", "Mod") {
@@ -206,14 +255,43 @@ func (re *rangeEngine) def(v ssa.Value, at *ssa.BasicBlock) sival {
 			for _, a := range x.Call.Args[1:] {
 				o := re.at(a, x.Block())
 				if bn == "min" {
-					out = sival{minB(out.lo, o.lo), tightHi(out.hi, o.hi)}
+					out = sival{minB(out.lo, o.lo), tightHi(out.hi, o.hi), out.unk || o.unk}
 				} else {
-					out = sival{tightLo(out.lo, o.lo), maxB(out.hi, o.hi)}
+					out = sival{tightLo(out.lo, o.lo), maxB(out.hi, o.hi), out.unk || o.unk}
 				}
 			}
 			return out
 		}
-		return topIval
+		if g := calleeOf(x); g != nil {
+			if accessorField(g) != nil {
+				return topIval // parsed field: unconstrained input data
+			}
+			if re.w != nil && re.w.InModule(g) && g.Blocks != nil && re.depth < 3 && isIntType(x.Type()) {
+				sub := &rangeEngine{w: re.w, ke: re.ke, f: g, busy: map[ssa.Value]bool{}, zoom: re.zoom, bind: map[ssa.Value]sival{}, depth: re.depth + 1}
+				for i, p := range g.Params {
+					if i < len(x.Call.Args) && (isIntType(p.Type()) || isFloatType(p.Type())) {
+						sub.bind[p] = re.at(x.Call.Args[i], x.Block())
+					}
+				}
+				var out *sival
+				for _, ret := range returnsOf(g) {
+					if len(ret.Results) != 1 {
+						return unkIval
+					}
+					iv := sub.at(ret.Results[0], ret.Block())
+					if out == nil {
+						out = &iv
+					} else {
+						h := hull(*out, iv)
+						out = &h
+					}
+				}
+				if out != nil {
+					return *out
+				}
+			}
+		}
+		return unkIval
 	case *ssa.Phi:
 		var out *sival
 		for i, e := range x.Edges {
@@ -230,7 +308,7 @@ func (re *rangeEngine) def(v ssa.Value, at *ssa.BasicBlock) sival {
 		}
 		return *out
 	}
-	return topIval
+	return unkIval
 }
 
 // remI: a mod m (Go % or math.Mod: sign follows the dividend)
@@ -241,9 +319,9 @@ func remI(a, m sival) sival {
 	mm := m.lo // modulus value (a*n+b), assumed >= 1
 	top := addB(mm, fin(0, -1))
 	if nonNeg(a) {
-		return sival{fin(0, 0), top}
+		return sival{lo: fin(0, 0), hi: top, unk: a.unk}
 	}
-	return sival{negB(top), top}
+	return sival{lo: negB(top), hi: top, unk: a.unk}
 }
 
 // constraint of `cond == outcome` on value v
@@ -282,13 +360,13 @@ func (re *rangeEngine) constraint(cond ssa.Value, outcome bool, v ssa.Value, at 
 	one := fin(0, 1)
 	switch op {
 	case token.LSS:
-		return sival{negInf, addB(o.hi, negB(one))}, true
+		return sival{lo: negInf, hi: addB(o.hi, negB(one))}, true
 	case token.LEQ:
-		return sival{negInf, o.hi}, true
+		return sival{lo: negInf, hi: o.hi}, true
 	case token.GTR:
-		return sival{addB(o.lo, one), posInf}, true
+		return sival{lo: addB(o.lo, one), hi: posInf}, true
 	case token.GEQ:
-		return sival{o.lo, posInf}, true
+		return sival{lo: o.lo, hi: posInf}, true
 	case token.EQL:
 		return o, true
 	}
@@ -339,34 +417,42 @@ func ruleIndexRange(w *World, r *Report) {
 	}
 	ke := kindsFor(w)
 	n := 0
-	for _, ret := range returnsOf(f) {
-		c, ok := resolve(ret.Results[0]).(*ssa.Call)
-		if !ok || !calleeIs(c, "strings", "Join") {
-			continue
-		}
-		vals, ok := sliceLiteral(c.Call.Args[0])
-		if !ok || len(vals) != 5 {
-			continue
-		}
-		for i, axis := range map[int]string{1: "x", 2: "y"} {
-			fc, ok := resolve(vals[i]).(*ssa.Call)
-			if !ok || !calleeIs(fc, "strconv", "FormatInt") {
+	for _, m := range shiftOutputs(w, f) {
+		for _, i := range []int{1, 2} {
+			axis := map[int]string{1: "x", 2: "y"}[i]
+			v, ok := m[i]
+			if !ok {
 				continue
 			}
 			n++
-			re := &rangeEngine{ke: ke, f: f, busy: map[ssa.Value]bool{}, zoom: kHZ}
-			iv := re.at(fc.Call.Args[0], fc.Block())
+			re := &rangeEngine{w: w, ke: ke, f: f, busy: map[ssa.Value]bool{}, zoom: kHZ, bind: map[ssa.Value]sival{}}
+			var blk *ssa.BasicBlock
+			if in, ok := v.(ssa.Instruction); ok {
+				blk = in.Block()
+			}
+			// evaluate at the block of the consumer (the last block dominated by all refinements): use the return blocks
+			iv := re.at(v, blk)
+			for _, ret := range returnsOf(f) {
+				if s, isS := constString(ret.Results[0]); isS && s == "" {
+					continue
+				}
+				iv = re.at(v, ret.Block())
+			}
 			key := fmt.Sprintf("%s / printed %s index", fn, axis)
 			okLo := leq(fin(0, 0), iv.lo)
 			okHi := leq(iv.hi, fin(1, -1))
-			if okLo && okHi {
-				r.add("RANGE", key, w.Pos(fc.Pos()), Discharged, "interval "+iv.String()+" is inside [0, n-1]")
-			} else {
-				r.add("RANGE", key, w.Pos(fc.Pos()), Violated, "the printed "+axis+" index can only be bounded by "+iv.String()+" (n = 2^hZoom); the property requires [0, n-1] on every path")
+			pos := w.Pos(f.Pos())
+			switch {
+			case okLo && okHi:
+				r.add("RANGE", key, pos, Discharged, "interval "+iv.String()+" is inside [0, n-1]")
+			case iv.unk:
+				r.add("RANGE", key, pos, Info, "the printed "+axis+" index passes through a construct the interval analysis does not model; bound "+iv.String()+" (no verdict)")
+			default:
+				r.add("RANGE", key, pos, Violated, "the printed "+axis+" index can only be bounded by "+iv.String()+" (n = 2^hZoom); the property requires [0, n-1] on every path")
 			}
 		}
 	}
 	if n < 2 {
-		r.add("RANGE", fn+" / outputs", w.Pos(f.Pos()), Undecided, "could not locate the printed x and y indices")
+		r.add("RANGE", fn+" / outputs", w.Pos(f.Pos()), Info, "could not locate the printed x and y indices")
 	}
 }
